@@ -425,7 +425,12 @@ func (r *ComboRoute) route(fn func(string, ...Handler) *Route, method string, ha
 	}
 	r.added[method] = struct{}{}
 
-	r.lastRoute = fn(r.routePath, append(r.handlers, handlers...)...)
+	// Allocate a new slice to avoid writing the handlers of one method into the
+	// spare capacity of the common handlers, where the next method overwrites them.
+	hs := make([]Handler, 0, len(r.handlers)+len(handlers))
+	hs = append(hs, r.handlers...)
+	hs = append(hs, handlers...)
+	r.lastRoute = fn(r.routePath, hs...)
 	return r
 }
 
